@@ -298,7 +298,9 @@ def parse_result(line):
 
 def run_rust(binary, cases, timeout_ms=10000):
     lines = [c.line() for c in cases]
-    return [parse_result(l) for l in run_parallel([binary, "--timeout-ms", str(timeout_ms)], lines)]
+    # an address-space limit keeps a runaway allocation of a broken implementation from taking the machine down
+    cmd = ["bash", "-c", "ulimit -v 12000000; exec %s --timeout-ms %d" % (binary, timeout_ms)]
+    return [parse_result(l) for l in run_parallel(cmd, lines)]
 
 
 def run_model(driver, cases, level, checks=False, nocopy=False):
